@@ -33,6 +33,10 @@ class Budget(Exception):
     pass
 
 
+class Exhausted(Exception):
+    """A value-choice point has no untried value left (raised while re-executing after a backtrack)."""
+
+
 class Prune(Exception):
     """The harness's own precondition is infeasible under the current case split: the path is dropped (not inconclusive)."""
 
@@ -90,6 +94,8 @@ class Ctl:
             return False
         if self.pos < len(self.trail):
             choice = self.trail[self.pos][0]
+            if choice == "conc":
+                raise Unsupported("non-deterministic re-execution (choice point mismatch)")
         else:
             can_t = self._sat(cond)
             can_f = self._sat(z3.Not(cond))
@@ -109,9 +115,46 @@ class Ctl:
         self.solver.add(cond if choice else z3.Not(cond))
         return choice
 
+    def choose_value(self, t):
+        """Pin the Int term t to a concrete value; a multi-way choice point recorded in the trail (values already tried
+        are remembered, so re-execution does not depend on which model the solver happens to return)."""
+        if self.pos < len(self.trail):
+            e = self.trail[self.pos]
+            if e[0] != "conc":
+                raise Unsupported("non-deterministic re-execution (choice point mismatch)")
+            if e[2] is None:
+                for v in e[1]:
+                    self.solver.add(t != v)
+                r = self.check()
+                if r == z3.unsat:
+                    raise Exhausted()
+                if r != z3.sat:
+                    raise SolverUnknown("solver unknown while choosing a value")
+                v = self.solver.model().eval(t, model_completion=True).as_long()
+                e[1].append(v)
+                e[2] = v
+            v = e[2]
+        else:
+            r = self.check()
+            if r != z3.sat:
+                raise Unsupported("infeasible/unknown while concretizing")
+            v = self.solver.model().eval(t, model_completion=True).as_long()
+            self.trail.append(["conc", [v], v])
+            self.branches += 1
+        self.pos += 1
+        self.solver.add(t == v)
+        return v
+
     def backtrack(self):
         while self.trail:
-            choice, alt = self.trail[-1]
+            e = self.trail[-1]
+            if e[0] == "conc":
+                if e[2] is not None:
+                    e[2] = None  # ask for the next untried value on re-execution
+                    return True
+                self.trail.pop()  # exhausted
+                continue
+            choice, alt = e
             if alt:
                 self.trail[-1] = [not choice, False]
                 return True
@@ -472,13 +515,7 @@ def concretize(x):
     t = z3.simplify(t)
     if z3.is_int_value(t):
         return t.as_long()
-    while True:
-        r = CTL.check()
-        if r != z3.sat:
-            raise Unsupported("infeasible/unknown while concretizing")
-        v = CTL.solver.model().eval(t, model_completion=True).as_long()
-        if CTL.branch(t == v):
-            return v
+    return CTL.choose_value(t)
 
 
 class SymInt(_Num):
@@ -604,6 +641,16 @@ def make_token(payload):
     s = "⟦N%d⟧" % len(TOKENS)
     TOKENS[s] = payload
     return s
+
+
+def canon_text(s):
+    """text with every token replaced by a canonical rendering of the value it denotes (tokens are unique per rendering)"""
+    def rep(mo):
+        p = TOKENS.get(mo.group(0))
+        if p is None:
+            return mo.group(0)
+        return "<" + ":".join(str(z3.simplify(x)) if is_term(x) else str(x) for x in p[:3] if not isinstance(x, tuple)) + ">"
+    return _TOKEN_RE.sub(rep, s)
 
 
 def token_payload(s):
@@ -1247,6 +1294,12 @@ def explore(fn, max_paths=200000, budget_s=600.0, variables=None):
             inconclusive.append("budget: " + str(e))
             res.paths += 1
             break
+        except Exhausted:
+            # the deepest choice point has no value left: drop it and continue the DFS (not a path)
+            CTL.trail.pop()
+            if not CTL.backtrack():
+                break
+            continue
         except Prune:
             ok, info, status = None, None, "pruned"
         except Unsupported as e:
